@@ -281,10 +281,14 @@ def main(run: Run):
         run.require("csr.reg.FieldActionMap.flatten::container-child:each-of-its-pairs-re-yielded-with-the-key-prepended",
                     "csr.reg.FieldActionArray.flatten::leaf-child-yields-exactly-(key,)-and-itself",
                     "csr.reg.Register.__iter__::collection:exactly-its-flatten()",
+                    "csr.reg.FieldActionMap.__init__::stored-under-the-item's-own-key", "csr.reg.FieldActionArray.__init__::appended-at-the-end",
+                    "csr.reg.FieldActionMap.__init__::exactly-one-store-per-item", "csr.reg.FieldActionArray.__init__::exactly-one-store-per-item",
+                    "csr.reg.FieldActionMap.__init__::a-Field-stores-its-create()-a-dict-a-nested-map-a-list-a-nested-array-built-from-the-item",
                     "csr.reg.Register.__init__[widths and access]::element-width-is-the-sum-of-all-field-widths",
                     "csr.reg.Register.__init__[widths and access]::side-condition:refuses-with-ValueError-only-a-field-the-access-mode-cannot-serve")
         run.assumptions.append("field order contracts: one arbitrary item of a collection with an abstract child (its own flatten() by the same contract one level "
-                               "down: induction over the nesting depth, on paper); dict / list iteration order is insertion order (Python); Register.__init__ "
+                               "down: induction over the nesting depth, on paper); dict / list iteration order is insertion order (Python); the collections' __init__ store one entry per item of the argument in its order "
+                               "(nested collections by the same contract); Register.__init__ "
                                "is verified for fields passed as an argument (the class-annotation route and Field.create(): bounded C11 configurations)")
         discharge_all(run, obs_f, timeout_ms=10000)
     except Unsupported as e:
